@@ -802,24 +802,145 @@ instance (dt : DType F) (v : PVal F) : Decidable (OfTypeM dt v) := decOfTypeG On
 /-- monitor of "a value of the type" -/
 def ofTypeB (dt : DType F) (v : PVal F) : Bool := decide (OfTypeM dt v)
 
-/-- what `Command.do` returned for a command with declared result type `resT` (`none`: no result type — the return
-value of the function is ignored and `None` handed back): a value of the result type, or a bad-value error; never
-anything else — in particular never the driver's `None` for a declared type -/
-def ResultOK (resT : Option (DType F)) : Outcome F → Prop
+/-! ### … and denotes the value the driver handed over (conversion only: no previous value, no limits, no clamping) -/
+
+mutual
+/-- `r` is the Python value `o` converted to the type `dt`: numbers numerically equal (±inf offered to a double stand
+for ±max; a scaled value is the grid value nearest to the number offered), an enum member named or numbered, strings
+and bytes equal, sequences element-wise of equal length, structs key-wise (`None`-valued keys dropped) -/
+def ConvDenotes : DType F → PVal F → PVal F → Prop
+  | .double _ _ _ _, o, r =>
+    match r with
+    | .float y =>
+      (match toFloat? o with
+       | some x => isNaN x = false ∧ same y (clampInf x) = true
+       | none => False)
+    | _ => False
+  | .int _ _, o, r =>
+    match r with
+    | .int i => numInt? o = some i
+    | _ => False
+  | .scaled scale _ _ _ _, o, r =>
+    match r with
+    | .float y =>
+      (match toFloat? o with
+       | some x =>
+         (match gridIndex scale x with
+          | some k => IsSome (ofGrid scale k) y
+          | none => False)
+       | none => False)
+    | _ => False
+  | .bool, o, r =>
+    match r with
+    | .bool b => intLike? o = some (if b then 1 else 0)
+    | _ => False
+  | .enum ms, o, r =>
+    match r with
+    | .enum n k => DenotesEnum ms o n k
+    | _ => False
+  | .string _ _ _, o, r =>
+    match o, r with
+    | .str s, .str t => s = t
+    | _, _ => False
+  | .blob _ _, o, r =>
+    match o, r with
+    | .bytes s, .bytes t => s = t
+    | _, _ => False
+  | .array elem _ _, o, r =>
+    match seqItems? o, r with
+    | some vs, .tuple rs => AllDen (fun _ x y => ConvDenotes elem x y) [] vs rs
+    | _, _ => False
+  | .tuple elems, o, r =>
+    match seqItems? o, r with
+    | some vs, .tuple rs => ZipConv elems vs rs
+    | _, _ => False
+  | .struct ms _ _, o, r =>
+    match o, r with
+    | .dict fields, .dict rf => DenotesStruct (fun k x y => MemberConv ms k x y) [] fields rf
+    | _, _ => False
+def ZipConv : List (DType F) → List (PVal F) → List (PVal F) → Prop
+  | [], [], [] => True
+  | t :: ts, v :: vs, r :: rs => ConvDenotes t v r ∧ ZipConv ts vs rs
+  | _, _, _ => False
+def MemberConv : List (String × DType F) → String → PVal F → PVal F → Prop
+  | [], _, _, _ => False
+  | (k, t) :: rest, key, o, r => if k = key then ConvDenotes t o r else MemberConv rest key o r
+end
+
+mutual
+def decConvDenotes : (dt : DType F) → (o r : PVal F) → Decidable (ConvDenotes dt o r)
+  | .double _ _ _ _, o, r => by
+    cases r <;> simp only [ConvDenotes] <;> try infer_instance
+    split <;> infer_instance
+  | .int _ _, _, r => by cases r <;> simp only [ConvDenotes] <;> infer_instance
+  | .scaled _ _ _ _ _, o, r => by
+    cases r <;> simp only [ConvDenotes] <;> try infer_instance
+    split
+    · split <;> infer_instance
+    · infer_instance
+  | .bool, _, r => by cases r <;> simp only [ConvDenotes] <;> infer_instance
+  | .enum _, _, r => by cases r <;> simp only [ConvDenotes] <;> infer_instance
+  | .string _ _ _, o, r => by simp only [ConvDenotes]; split <;> infer_instance
+  | .blob _ _, o, r => by simp only [ConvDenotes]; split <;> infer_instance
+  | .array elem _ _, o, r => by
+    simp only [ConvDenotes]
+    split
+    · exact decAllDen _ (fun _ x y => decConvDenotes elem x y) _ _ _
+    · infer_instance
+  | .tuple elems, o, r => by
+    simp only [ConvDenotes]
+    split
+    · exact decZipConv elems _ _
+    · infer_instance
+  | .struct ms _ _, o, r => by
+    simp only [ConvDenotes]
+    split
+    · exact decDenotesStruct _ (fun k x y => decMemberConv ms k x y) _ _ _
+    · infer_instance
+def decZipConv : (ts : List (DType F)) → (vs rs : List (PVal F)) → Decidable (ZipConv ts vs rs)
+  | [], [], [] => by simp only [ZipConv]; infer_instance
+  | t :: ts, v :: vs, r :: rs => by
+    simp only [ZipConv]
+    have := decConvDenotes t v r
+    have := decZipConv ts vs rs
+    infer_instance
+  | [], _ :: _, _ => by simp only [ZipConv]; infer_instance
+  | [], [], _ :: _ => by simp only [ZipConv]; infer_instance
+  | _ :: _, [], _ => by simp only [ZipConv]; infer_instance
+  | _ :: _, _ :: _, [] => by simp only [ZipConv]; infer_instance
+def decMemberConv : (ms : List (String × DType F)) → (k : String) → (o r : PVal F) → Decidable (MemberConv ms k o r)
+  | [], _, _, _ => by simp only [MemberConv]; infer_instance
+  | (k, t) :: rest, key, o, r => by
+    simp only [MemberConv]
+    have := decConvDenotes t o r
+    have := decMemberConv rest key o r
+    infer_instance
+end
+
+instance (dt : DType F) (o r : PVal F) : Decidable (ConvDenotes dt o r) := decConvDenotes dt o r
+
+/-- monitor of "the converted value denotes the value handed over" -/
+def convDenotesB (dt : DType F) (o r : PVal F) : Bool := decide (ConvDenotes dt o r)
+
+/-- what `Command.do` returned (`out`) for a command with declared result type `resT` (`none`: no result type — the
+return value of the function is ignored and `None` handed back) whose function returned `ret`: a value of the result
+type that denotes `ret`, or a bad-value error; never anything else — in particular never the driver's `None` for a
+declared type -/
+def ResultOK (resT : Option (DType F)) (ret : PVal F) : Outcome F → Prop
   | .ok r =>
     match resT with
-    | some dt => OfType dt r
+    | some dt => OfType dt r ∧ ConvDenotes dt ret r
     | none => isNone r = true
   | .bad => True
   | .other _ => False
 
 /-- monitor of `ResultOK`, plus "converting the converted value again returns it unchanged" (`again` = the outcome of
 `result(r)` on the value returned) -/
-def judgeResult (resT : Option (DType F)) (out : Outcome F) (again : Option (Outcome F)) : List String :=
+def judgeResult (resT : Option (DType F)) (ret : PVal F) (out : Outcome F) (again : Option (Outcome F)) : List String :=
   match out with
   | .ok r =>
     (match resT with
-     | some dt => if ofTypeB dt r then [] else ["oftype:result"]
+     | some dt => (if ofTypeB dt r then [] else ["oftype:result"]) ++ (if convDenotesB dt ret r then [] else ["denotes:result"])
      | none => if isNone r then [] else ["oftype:result"]) ++
     (match resT, again with
      | some _, some x => if x.returns r then [] else ["idem:result"]
